@@ -16,8 +16,9 @@ ASSUMPTIONS = ["ASan sees only accesses made by the instrumented cvxopt C code; 
                "the seven plug-in modules (cholmod, umfpack, amd, glpk, dsdp, gsl, fftw) come from the wheel and are not instrumented",
                "MemorySanitizer/TSan are not used (uninstrumented CPython)"]
 REPLAY_PROPS = ["C08", "C15", "C16", "C17", "C18", "C20"]
-REQUIRED_COUNTERS = ["selftest.asan-detected", "selftest.guard-over-detected", "selftest.guard-under-detected", "hostile.calls",
-                     "hostile.rejected", "hostile.accepted", "large.calls", "guard.allocations"]
+_REQ = ["selftest.asan-detected", "selftest.guard-over-detected", "selftest.guard-under-detected", "hostile.calls",
+        "hostile.rejected", "hostile.accepted", "large.calls", "guard.allocations"]
+REQUIRED_COUNTERS = {"quick": _REQ, "thorough": _REQ + ["valgrind.workers"]}
 
 
 def _available():
@@ -44,6 +45,13 @@ def plan(tier):
     g.append({"variant": "guard", "name": "guard-under-hostile", "workers": 1, "cases": hc, "params": {"mon": "hostile"}, "env": {"VGUARD_LAYOUT": "under"}})
     g.append({"variant": "guard", "name": "guard-strict-hostile", "workers": 1, "cases": hc, "params": {"mon": "hostile", "noblas": True},
               "env": {"VGUARD_LAYOUT": "strict"}})
+    if not q:
+        vg = ["valgrind", "--quiet", "--error-limit=no", "--num-callers=12", "--suppressions=" + os.path.join(os.path.dirname(os.path.dirname(os.path.abspath(__file__))), "vguard", "valgrind.supp")]
+        g.append({"variant": "plain", "name": "valgrind-hostile", "workers": 2, "cases": 250, "params": {"mon": "hostile"}, "wrap": vg,
+                  "env": {"PYTHONMALLOC": "malloc", "OPENBLAS_CORETYPE": "NEHALEM"}})
+        if "C08" in _available():
+            g.append({"variant": "plain", "name": "valgrind-replay-C08", "workers": 1, "cases": 200, "params": {"mon": "replay", "prop": "C08"}, "wrap": vg,
+                      "env": {"PYTHONMALLOC": "malloc", "OPENBLAS_CORETYPE": "NEHALEM"}})
     g.append({"variant": "asan", "name": "asan-large", "workers": 2, "cases": 3 if q else 60, "params": {"mon": "large"}})
     g.append({"variant": "guard", "name": "guard-large", "workers": 1, "cases": 3 if q else 60, "params": {"mon": "large"}})
     return g
